@@ -18,6 +18,11 @@ func propC11(c *Ctx, r *Report) {
 	e := newEraCtx(c, r)
 	r.rule("C11/era-table", 7, "grader versions and payout steps by height class")
 	e.evalRows(r, e.rowsC11(r))
+	ruleEligibilityView(c, r, buildSQLCat(c), "C11/eligibility-view")
+	r.rule("C11/payout-loops-complete", 3, "every winner and every burn is paid, or the block fails")
+	ruleLoopCompletes(c, r, "C11/payout-loops-complete", c.fn("node.Pegnetd.ApplyGradedOPRBlock"), "pegnet.Pegnet.AddToBalance", "every winning OPR is paid")
+	ruleLoopCompletes(c, r, "C11/payout-loops-complete", c.fn("node.Pegnetd.ApplyGradedSPRBlock"), "pegnet.Pegnet.AddToBalance", "every winning SPR is paid")
+	ruleLoopCompletes(c, r, "C11/payout-loops-complete", c.fn("node.Pegnetd.ApplyFactoidBlock"), "pegnet.Pegnet.AddToBalance", "every burn is credited")
 
 	// payout provenance
 	r.rule("C11/payout-provenance", 2, "winner credits: amount, address and history row come from the same Winners() element")
